@@ -52,18 +52,6 @@ Proof.
   split; [vm_compute; discriminate|]. split; [vm_compute; intros H; apply H; reflexivity|]. reflexivity.
 Qed.
 
-Lemma hidden_missed : table_missed w_r0 w_hidden n_victim.
-Proof.
-  unfold table_missed. split; [wf_tac|]. split; [vm_compute; auto|]. split; [reflexivity|].
-  split; [vm_compute; discriminate|]. split; [vm_compute; intros H; apply H; reflexivity|]. reflexivity.
-Qed.
-
-Lemma prefix_missed : table_missed w_r0 w_prefix n_t.
-Proof.
-  unfold table_missed. split; [wf_tac|]. split; [vm_compute; auto|]. split; [reflexivity|].
-  split; [vm_compute; discriminate|]. split; [vm_compute; intros H; apply H; reflexivity|]. reflexivity.
-Qed.
-
 Definition column_missed (r0 : realm) (stmts : list pstmt) (t c : name) : Prop :=
   let rs := states_of r0 stmts in
   wf_realm r0 /\ run r0 stmts rs /\ has_real_col r0 t c /\ has_table (last rs r0) t /\ ~ has_col (last rs r0) t c /\
@@ -89,3 +77,20 @@ Proof.
   unfold false_positive. split; [vm_compute; auto|]. split; [intros n H; apply H; reflexivity|].
   exists 25%N, n_tmp. vm_compute. left; reflexivity.
 Qed.
+
+(** After the fixes C18-rebuild-copy-slot / C18-rebuild-exact-rename the two former witnesses are reported. *)
+Lemma hidden_now_flagged :
+  analyze_file (changes_of w_r0 w_hidden (states_of w_r0 w_hidden))
+  = [mkDiag DS102 60 [n_victim]; mkDiag DS102 80 [n_t]].
+Proof. vm_compute. reflexivity. Qed.
+
+Lemma prefix_now_flagged :
+  analyze_file (changes_of w_r0 w_prefix (states_of w_r0 w_prefix)) = [mkDiag DS102 100 [n_t]].
+Proof. vm_compute. reflexivity. Qed.
+
+(** DROP COLUMN b; ADD COLUMN b (the "change the type by hand" pattern): the drop is reported. *)
+Definition w_drop_add_col : list pstmt :=
+  [(0, DropColumn n_t (c_name c_b)); (30, AddColumn n_t (mkCol (c_name c_b) false 3))]%N.
+Lemma drop_add_col_flagged :
+  analyze_file (changes_of w_r0 w_drop_add_col (states_of w_r0 w_drop_add_col)) = [mkDiag DS103 0 [c_name c_b]].
+Proof. vm_compute. reflexivity. Qed.
